@@ -181,6 +181,19 @@ def den(spec, e, val, zeroed=frozenset()):
         else:
             val2[("v", l)] = 0 if present else 1
             v = den(spec, body, val2, zeroed)
+    elif n[0] == "OP" and n[1] == "ZRestrict":
+        # restrict on the Boolean-function view of a ZBDD whose nodes are all on level >= n[3]: the result is a family
+        # over the same variables in which the cube's variables are don't-care
+        body, cube, lvl = n[2][0], n[2][1], n[3]
+        if any(var(l) for l in val["$levels"] if l < lvl):
+            v = 0
+        else:
+            forced = zcube_forced(spec, cube, val, lvl)
+            if any(k[1] in zeroed for k in forced):
+                raise Unrecognised("restricted variable is zero-suppressed in this context")
+            val2 = dict(val)
+            val2.update(forced)
+            v = den(spec, body, val2, zeroed)
     elif n[0] == "OP" and n[1] == "Subst":
         body, table = n[2][0], n[3]
         val2 = dict(val)
@@ -372,6 +385,34 @@ def bcube_forced(spec, cube, B):
     return out
 
 
+_ZFORCED = {}
+
+
+def zcube_forced(spec, cube, val, lvl):
+    """literals of a ZBDD cube (Boolean-function view): levels >= lvl on which all models agree"""
+    lv = [l for l in val["$levels"] if l >= lvl]
+    key = (id(cube), tuple(val["$levels"]), lvl)
+    if key not in _ZFORCED:
+        if atoms_of([cube]):
+            raise Unrecognised("cube %s contains opaque parts" % lab(cube))
+        ms = []
+        for bs in itertools.product((0, 1), repeat=len(lv)):
+            v2 = {"$levels": val["$levels"]}
+            v2.update({("v", l): 0 for l in val["$levels"]})
+            v2.update({("v", l): b for l, b in zip(lv, bs)})
+            if den(spec, cube, v2):
+                ms.append(bs)
+        out = {}
+        for i, l in enumerate(lv):
+            vs = {m[i] for m in ms}
+            if len(vs) == 1:
+                out[("v", l)] = vs.pop()
+        if not ms or len(ms) != 2 ** (len(lv) - len(out)):
+            raise Unrecognised("%s is not a conjunction of literals over the levels >= %d" % (lab(cube), lvl))
+        _ZFORCED[key] = (cube, out)
+    return _ZFORCED[key][1]
+
+
 def contains_level_at_or_above(e, level):
     n = e.node
     if n[0] == "S":
@@ -499,7 +540,7 @@ class StepDomain(epick.PickDomain):
                 return len(r)
             raise Unrecognised("len of %r" % (r,))
         if m.endswith("Recursor::binary") or m.endswith("Recursor::ternary") or m.endswith("Recursor::subset") \
-                or m.endswith("Recursor::subst") or m.endswith("Recursor::unary"):
+                or m.endswith("Recursor::subst") or m.endswith("Recursor::unary") or m.endswith("Recursor::binary_with_level"):
             it.recv(e, env)
             args = it.args(e, env)
             fv, tups = args[0], args[2:]
@@ -557,6 +598,8 @@ class StepDomain(epick.PickDomain):
             args = [it.ev(a, env) for a in args_e]
             level = args[1]
             kids = tuple(a for a in args[2:] if isinstance(a, Edge))
+            if short == "reduce1" and len(kids) == 1:
+                kids = (kids[0], kids[0])       # don't-care node (both children equal); reduce1 itself is in E-TABLE.reduce
             return Enum(OK, [Edge(("MK", level, kids), self.default_tag())])
         if did in ("std::cmp::Ord::cmp", "core::cmp::Ord::cmp"):
             a, b = [it.ev(x, env) for x in args_e]
@@ -1111,6 +1154,51 @@ def run_zbdd(ctx, F, rule):
              ("g, h are Base / node", [plain_node("f")(1), base, plain_node("h")(1)])]
     n += check_step(ctx, F, rule, spec, mod + "::apply_ite", algos_i,
                     ite_situations(plain_node("f"), plain_node("g"), plain_node("h"), extra), "Ite", label="zbdd apply_ite")
+    # restrict on the Boolean-function view
+    def zcube(lits, lvl):
+        rest = base
+        for l in (3, 2, 1):
+            if l < lvl:
+                break
+            pol = lits.get(l)
+            if pol is True:
+                rest = snode("c%d" % l, l, [rest, empty])
+            elif pol is None:
+                rest = snode("d%d" % l, l, [rest, rest])
+        return rest
+
+    def build_zrestrict(dom, consts, args):
+        es = [a for a in args if isinstance(a, Edge)]
+        ints = [a for a in args if isinstance(a, int) and not isinstance(a, bool)]
+        if len(es) != 2 or len(ints) != 1:
+            raise Unrecognised("restrict call %r" % (args,))
+        return Edge(("OP", "ZRestrict", (es[0], es[1]), ints[0]), None)
+
+    def build_zbase(dom, consts, args):
+        es = [a for a in args if isinstance(a, Edge)]
+        ints = [a for a in args if isinstance(a, int) and not isinstance(a, bool)]
+        if len(es) != 1 or len(ints) != 1:
+            raise Unrecognised("restrict_base call %r" % (args,))
+        return Edge(("OP", "ZRestrict", (base, es[0]), ints[0]), None)
+    empty = Edge(("T", Enum(tables.ZBDD.terminal_enum + "::Empty")), None)
+    algos_r = dict(algos)
+    algos_r[mod + "::restrict"] = ("build", build_zrestrict)
+    algos_r[mod + "::restrict::restrict_base"] = ("build", build_zbase)
+    spec_r = Spec(tables.ZBDD, ALG_ZBDD, mod, root, root + "::ZBDDOp", lambda e, val: tv[e.node[1].short])
+    spec_r.always_levels = (1, 2, 3)
+    sits = []
+    for lvl in (1, 2):
+        shapes = [("f on level %d" % lf, plain_node("f")(lf)) for lf in (1, 2, 3) if lf >= lvl]
+        shapes += [("deep f on level %d" % lf, deep_node("f", lf, plain_mk)) for lf in (1, 2) if lf >= lvl]
+        shapes += [("f is Base", base), ("f is Empty", empty)]
+        for pol in itertools.product((None, True, False), repeat=3):
+            lits = {l + 1: p for l, p in enumerate(pol)}
+            if not FULL[0] and sum(1 for p in pol if p is not None) > 2:
+                continue
+            for d, f in shapes:
+                sits.append(("%s, cube %s from level %d" % (d, {k: v for k, v in lits.items() if k >= lvl}, lvl), [f, zcube(lits, lvl), lvl]))
+    n += check_step(ctx, F, rule, spec_r, mod + "::restrict", algos_r, sits,
+                    lambda ops3: Edge(("OP", "ZRestrict", (ops3[0], ops3[1]), ops3[2]), None), label="zbdd restrict", nfun=1)
     # subset0 / subset1 / change
     SUB = {0: "Subset0", 1: "Subset1", -1: "Change"}
 
